@@ -1,6 +1,7 @@
 (* C15 model, printf-style formatting: fmtnum / fmtifnum / hexfmt.
-   - pkg/mlrval/mlrval_format.go newFormatter: exactly one '%', the ReplaceAll chain lld->d llx->x ld->d lx->x lf->f
-     le->e lg->g, then dispatch on the LAST byte of the translated format (formatterToInt / ToFloat / ToString);
+   - pkg/mlrval/mlrval_format.go newFormatter: exactly one '%', splitFormatDirective (literal prefix, flags/width/
+     precision, dropped l/ll length modifiers, optional '_', the verb, literal suffix), then dispatch on the VERB
+     (formatterToInt / ToFloat / ToString); x X o b of a negative int render its 64-bit two's complement;
    - formatterToInt.Format / formatterToFloat.Format / formatterToString.Format: fmt.Sprintf(goFormat, v) with v the
      int64, int(float), float64, float64(int) or the number's original text;
    - Go fmt (go1.23) doPrintf for one verb (flags # 0 + - space, width, .precision, verb), fmtInteger for d x X o b,
@@ -123,13 +124,15 @@ Definition fmt_integer (sp : spec) (z : Z) (base : N) (upper : bool) : bytes :=
   | _, _ => let b := int_body sp (z <? 0) u base upper in pad_gen (fwid sp) (fminus sp) false (blen b) b
   end.
 
+(* formatterToInt.sprintfInt: uint64(intValue) for a negative int under x X o b *)
+Definition as_unsigned (z : Z) : Z := if z <? 0 then z + 18446744073709551616 else z.
 Definition sprintf_int (sp : spec) (z : Z) : option bytes :=
   let v := verb sp in
   let body := if Ascii.eqb v "d" then Some (fmt_integer sp z 10 false)
-              else if Ascii.eqb v "x" then Some (fmt_integer sp z 16 false)
-              else if Ascii.eqb v "X" then Some (fmt_integer sp z 16 true)
-              else if Ascii.eqb v "o" then Some (fmt_integer sp z 8 false)
-              else if Ascii.eqb v "b" then Some (fmt_integer sp z 2 false)
+              else if Ascii.eqb v "x" then Some (fmt_integer sp (as_unsigned z) 16 false)
+              else if Ascii.eqb v "X" then Some (fmt_integer sp (as_unsigned z) 16 true)
+              else if Ascii.eqb v "o" then Some (fmt_integer sp (as_unsigned z) 8 false)
+              else if Ascii.eqb v "b" then Some (fmt_integer sp (as_unsigned z) 2 false)
               else None in
   match body with Some b => Some (pre sp ++ b ++ post sp) | None => None end.
 
@@ -246,32 +249,51 @@ Definition sprintf_string (sp : spec) (s : bytes) : option bytes :=
 
 (* ------------------------------------------------------------------ Miller: newFormatter and the formatters *)
 Definition count_pct (s : bytes) : nat := List.length (filter (fun c => Ascii.eqb c "%") s).
-(* strings.ReplaceAll with a non-empty pattern is Model.gssub *)
-Definition translate (f : bytes) : bytes :=
-  let f := gssub f (B "lld") (B "d") in
-  let f := gssub f (B "llx") (B "x") in
-  let f := gssub f (B "ld") (B "d") in
-  let f := gssub f (B "lx") (B "x") in
-  let f := gssub f (B "lf") (B "f") in
-  let f := gssub f (B "le") (B "e") in
-  gssub f (B "lg") (B "g").
+(* splitFormatDirective: (prefix, flags ++ width ++ precision, has '_', verb, suffix); None = no verb *)
+Fixpoint span (p : ascii -> bool) (s : bytes) : bytes * bytes :=
+  match s with
+  | c :: t => if p c then let '(a, b) := span p t in (c :: a, b) else ([], s)
+  | [] => ([], [])
+  end.
+Definition is_flag (c : ascii) : bool :=
+  Ascii.eqb c "#" || Ascii.eqb c "0" || Ascii.eqb c "+" || Ascii.eqb c "-" || Ascii.eqb c " ".
+Definition split_directive (f : bytes) : option (bytes * bytes * bool * ascii * bytes) :=
+  match split_pct f with
+  | None => None
+  | Some (pr, r0) =>
+      let '(fl, r1) := span is_flag r0 in
+      let '(wd, r2) := span is_digit r1 in
+      let '(pc, r3) := match r2 with
+                       | "." :: t => let '(d, r) := span is_digit t in ("." :: d, r)
+                       | _ => ([], r2)
+                       end in
+      let '(_, r4) := span (fun c => Ascii.eqb c "l") r3 in
+      let '(us, r5) := match r4 with "_" :: t => (true, t) | _ => (false, r4) end in
+      match r5 with
+      | [] => None
+      | v :: po => Some (pr, fl ++ wd ++ pc, us, v, po)
+      end
+  end.
 
 Inductive fkind := KInt | KFloat | KString | KSeparated.
-Definition last_two (s : bytes) : option ascii * option ascii :=
-  match rev s with
-  | a :: b :: _ => (Some b, Some a)
-  | [a] => (None, Some a)
-  | [] => (None, None)
-  end.
-Definition formatter_kind (g : bytes) : fkind :=
-  match last_two g with
-  | (b, Some a) =>
-      let under := match b with Some c => Ascii.eqb c "_" | None => false end in
-      if under && (Ascii.eqb a "d" || Ascii.eqb a "f") then KSeparated
-      else if Ascii.eqb a "d" || Ascii.eqb a "x" || Ascii.eqb a "X" || Ascii.eqb a "o" || Ascii.eqb a "b" then KInt
-      else if Ascii.eqb a "f" || Ascii.eqb a "e" || Ascii.eqb a "g" || Ascii.eqb a "E" || Ascii.eqb a "G" then KFloat
-      else KString
-  | _ => KString
+(* newFormatter's switch on the verb *)
+Definition formatter_kind (us : bool) (v : ascii) : fkind :=
+  if Ascii.eqb v "d" then (if us then KSeparated else KInt)
+  else if Ascii.eqb v "f" then (if us then KSeparated else KFloat)
+  else if us then KString
+  else if Ascii.eqb v "x" || Ascii.eqb v "X" || Ascii.eqb v "o" || Ascii.eqb v "b" then KInt
+  else if Ascii.eqb v "e" || Ascii.eqb v "g" || Ascii.eqb v "E" || Ascii.eqb v "G" then KFloat
+  else KString.
+(* (kind, Go format): the numeric formatters get prefix % flags width precision verb suffix (no l, no _);
+   the string formatter gets the user's format unchanged *)
+Definition go_format (f : bytes) : fkind * bytes :=
+  match split_directive f with
+  | None => (KString, f)
+  | Some (pr, mid, us, v, po) =>
+      match formatter_kind us v with
+      | KString => (KString, f)
+      | k => (k, pr ++ "%" :: mid ++ v :: po)
+      end
   end.
 
 (* the value: an int64, or a finite binary64 given by its bits; txt is the number's text (mv.String()) *)
@@ -282,11 +304,11 @@ Definition of_opt (o : option bytes) : fres := match o with Some b => FOut b | N
 (* BIF_fmtnum on an int or float first argument and a string second argument *)
 Definition fmtnum (v : numv) (txt f : bytes) : fres :=
   if negb (Nat.eqb (count_pct f) 1) then FError else
-  let g := translate f in
+  let '(k, g) := go_format f in
   match parse_format g with
   | None => FUnmodelled
   | Some sp =>
-      match formatter_kind g, v with
+      match k, v with
       | KSeparated, _ => FUnmodelled
       | KInt, VInt z => of_opt (sprintf_int sp z)
       | KInt, VFloat bits =>
